@@ -6,6 +6,7 @@ CONSTANTS
   Kinds = {"rec", "cache"}
   UrgentAsync = TRUE
   RecLimit = 2
+  MaxChecks = 0
   Servers = {FALSE, TRUE}
 INVARIANTS TypeOK C01 C02 C03 C10 C16 PosConsistent
 CHECK_DEADLOCK FALSE
